@@ -177,6 +177,10 @@ class GenericSystemRegistry(
 
         return f, self.Unit(units)
 
+    def _clear_memos(self) -> None:
+        super()._clear_memos()
+        self._base_units_cache.clear()
+
     def _get_base_units(
         self,
         input_units: UnitsContainerT,
